@@ -74,8 +74,15 @@ func (d *DebugDialer) Dial(ctx context.Context, urlstr string) (conn net.Conn, b
 		// bytes from server.
 		p := resBuf.Bytes()
 		n := bytes.Index(p, headEnd)
-		h := n + len(headEnd)         // Head end index.
+		h := len(p) // Head end index; all received bytes if the head is incomplete.
+		if n >= 0 {
+			h = n + len(headEnd)
+		}
 		n = h + int(resContentLength) // Body end index.
+		if n > len(p) {
+			// Response was cut before the whole body has been received.
+			n = len(p)
+		}
 
 		onResponse(p[:n])
 
